@@ -34,6 +34,7 @@ type Explorer struct {
 	Known       map[string]bool // active known-finding region ids
 	Bounds      map[string]int64
 	Deadline    time.Time
+	MaxUnknown  int
 
 	mu          sync.Mutex
 	work        [][]int
@@ -295,7 +296,16 @@ func (i *interpreter) solveFeas(extra []string) queryResult {
 func (i *interpreter) solveMode(full bool, extra []string, vals []string) queryResult {
 	q := i.path.queryText(full, extra...)
 	hasStr := i.path.usesStr || strings.Contains(q, "String") || strings.Contains(q, "str.")
-	return i.ex.Hub.solve(i.ss, q, vals, hasStr)
+	r := i.ex.Hub.solve(i.ss, q, vals, hasStr)
+	if r.res != "sat" && r.res != "unsat" {
+		i.path.unknowns++
+		if i.path.unknowns > i.ex.MaxUnknown && !i.path.ending {
+			i.path.ending = true
+			i.path.obls = append(i.path.obls, &Obligation{Kind: "budget", Msg: "path abandoned: too many undecided solver queries", Status: "undecided"})
+			panic(pathEnd{reason: "budget", detail: "solver unknown budget"})
+		}
+	}
+	return r
 }
 
 func (i *interpreter) branchAt(c value, instr ssa.Instruction) bool { return i.branch(c) }
